@@ -514,12 +514,15 @@ class Rules:
                 ed.add(it.body_open + m.start(), it.body_open + m.end(), '', 'R10')
                 self.note('R10', fname, src, it.body_open + m.start(), 'pointer %s = %s as *mut __m%si' % (m.group(1), m.group(2), m.group(3)))
             for P, (X, w) in ptrs.items():
-                ld = '_mm_loadu_si128' if w == '128' else '_mm256_loadu_si256'
-                st = '_mm_storeu_si128' if w == '128' else '_mm256_storeu_si256'
-                for m in re.finditer(r'\b%s\(\s*%s(?:\.add\((\d+)\))?\s*\)' % (ld, P), body):
-                    ed.add(it.body_open + m.start(), it.body_open + m.end(), 'load%s(%s, %s)' % (w, X, m.group(1) or '0'), 'R10')
-                for m in re.finditer(r'\b%s\(\s*%s(?:\.add\((\d+)\))?\s*,' % (st, P), body):
-                    ed.add(it.body_open + m.start(), it.body_open + m.end(), 'store%s(%s, %s,' % (w, X, m.group(1) or '0'), 'R10')
+                # the aligned forms (`_mm_load_si128`, `_mm256_store_si256`, ...) go to `loadN_aligned` / `storeN_aligned`, whose
+                # extra precondition `ptr_aligned(X, N/8)` nothing in the crate can establish for a `[u8; 64]` (alignment 1)
+                for sfx, al in (('u', ''), ('', '_aligned')):
+                    ld = '_mm_load%s_si128' % sfx if w == '128' else '_mm256_load%s_si256' % sfx
+                    st = '_mm_store%s_si128' % sfx if w == '128' else '_mm256_store%s_si256' % sfx
+                    for m in re.finditer(r'\b%s\(\s*%s(?:\.add\((\d+)\))?\s*\)' % (ld, P), body):
+                        ed.add(it.body_open + m.start(), it.body_open + m.end(), 'load%s%s(%s, %s)' % (w, al, X, m.group(1) or '0'), 'R10')
+                    for m in re.finditer(r'\b%s\(\s*%s(?:\.add\((\d+)\))?\s*,' % (st, P), body):
+                        ed.add(it.body_open + m.start(), it.body_open + m.end(), 'store%s%s(%s, %s,' % (w, al, X, m.group(1) or '0'), 'R10')
         return ed.apply()
 
     def r10_model_neon(self, fname, src):
